@@ -180,7 +180,7 @@ def selection_suite(rep: Report, which: str, consts: dict, registry=None, pool=N
                  f"sum <= {consts['MaxTotal']}")
     head = [r for r in m.records if isinstance(r, dict) and "registry" in r]
     recs = [r for r in m.records if isinstance(r, dict) and "sel" in r]
-    if len(head) != 1 or len(recs) * 2 != m.distinct:
+    if len(head) != 1 or len(recs) != m.distinct or len({(tuple(r["a"]), tuple(r["d"])) for r in recs}) != len(recs):
         raise MachineryError(f"RuleSelect({which}) printed {len(head)} registry records and {len(recs)} cases for {m.distinct} states")
     reg, pl, refmap = head[0]["registry"], head[0]["pool"], head[0]["refmap"]
     for r in recs:
